@@ -89,8 +89,8 @@ class TxIds(Family):
         a, b = objs
         if not (a == b and b == a) or (a != b) or (b != a):
             raise Viol('immutable and mutable transactions with equal fields compare unequal', True, False)
-        if hash(a) != hash(b) or hash(a) != hash(W.encode_tx(m)):
-            raise Viol('hash() differs between twins or from hash(serialisation)', hash(W.encode_tx(m)), (hash(a), hash(b)))
+        if hash(a) != hash(b) or hash(a) != hash(CTransaction.deserialize(W.encode_tx(m))):
+            raise Viol('hash() differs between equal objects (mutable / immutable twin, deserialised copy)', hash(a), hash(b))
         # altering / removing / adding witness data on the mutable twin never changes the txid
         for stack in ([b'zz'], []):
             b.wit = CTxWitness(tuple(CTxInWitness(CScriptWitness(tuple(stack))) for _ in m['vin']))
@@ -169,8 +169,8 @@ class SubObjects(Family):
                 raise Viol('%s serialisation' % type(o).__name__, enc, o.serialize())
             if o.GetHash() != W.sha256d(enc) or o.GetHash() != W.sha256d(enc):
                 raise Viol('%s GetHash' % type(o).__name__, W.sha256d(enc), o.GetHash())
-            if hash(o) != hash(enc):
-                raise Viol('%s hash()' % type(o).__name__, hash(enc), hash(o))
+            if hash(o) != hash(type(o).deserialize(enc)):
+                raise Viol('%s hash() differs from the hash of an equal object' % type(o).__name__, None, hash(o))
         if not (a == b and b == a) or a != b:
             raise Viol('%s twins compare unequal' % kind, True, False)
         return kind
@@ -214,7 +214,7 @@ class BlockIds(Family):
             raise Viol('deserialised CBlock.GetHash() is not sha256d of the first 80 bytes', want2, blk2.GetHash())
         if blk2.get_header().serialize() != enc[:80]:
             raise Viol('deserialised CBlock.get_header() differs from the wire header', enc[:80], blk2.get_header().serialize())
-        if hash(blk2) != hash(enc) or blk2 != CBlock.deserialize(enc):
+        if hash(blk2) != hash(CBlock.deserialize(enc)) or blk2 != CBlock.deserialize(enc):
             raise Viol('block hash()/== not on the serialised form', None, None)
         # equality is on the serialised form, also after the header hashes have been computed (cached): a block is
         # not equal to its bare header, nor to a block with the same header but other witness data / transactions
@@ -278,7 +278,7 @@ class NonCanonical(Family):
                     raise Viol('%s from a %s encoding: GetHash() is not sha256d of its serialisation' % (cls.__name__, kind), W.sha256d(full), t.GetHash())
                 if t.GetTxid() != W.sha256d(stripped):
                     raise Viol('%s from a %s encoding: GetTxid() is not sha256d of its stripped serialisation' % (cls.__name__, kind), W.sha256d(stripped), t.GetTxid())
-            if (t.GetHash() != t.GetTxid()) != t.has_witness() or hash(t) != hash(full):
+            if (t.GetHash() != t.GetTxid()) != t.has_witness() or hash(t) != hash(cls.deserialize(full)):
                 raise Viol('%s from a %s encoding: witness hash / hash() inconsistent' % (cls.__name__, kind), None, None)
             objs.append(t)
         if objs[0] != objs[1] or objs[0].GetHash() != objs[1].GetHash() or hash(objs[0]) != hash(objs[1]):
